@@ -248,8 +248,9 @@ def run(ctx):
         # 1. exhaustive checks of the design spec
         mc = [ctx.tlc("AuthMC", "C11_mc_asis.cfg", timeout=3000, workers=8,
                       label="code as is, <=3 faults, 14 generator configurations: only the known leak mechanisms"),
-              ctx.tlc("AuthMC", "C11_mc_fixed.cfg", timeout=3000, workers=8,
-                      label="all repairs, <=3 faults, 14 generator configurations: no leak")]
+              ctx.tlc("AuthMC", "C11_mc_fixed.cfg" if thorough else
+                      write_cfg(ctx, "C11_mc_fixed.cfg", "C11_mc_fixed_q.cfg", {"MaxFaults": 2}), timeout=3000, workers=8,
+                      label="all repairs, <=%d faults, 14 generator configurations: no leak" % (3 if thorough else 2))]
         if thorough:
             wide = {"Confs": "AllConfs", "MaxFaults": 2}
             mc.append(ctx.tlc("AuthMC", write_cfg(ctx, "C11_mc_asis.cfg", "C11_mc_asis_all.cfg", wide), timeout=3000,
